@@ -93,9 +93,11 @@ def find_items(toks, kind, name):
             continue
         if kind == "const" and i > 0 and toks[i - 1].text in ("<", ","):
             continue  # const generic parameter
+        if kind == "static" and (i + 2 >= len(toks) or toks[i + 2].text != ":"):
+            continue
         if kind == "fn":
             end, body = _fn_end(toks, i)
-        elif kind == "const":
+        elif kind in ("const", "static"):
             j = i
             while toks[j].text != ";":
                 if toks[j].kind == "open":
